@@ -97,6 +97,31 @@ func Gen(seed uint64, profile string) *Scenario {
 			}
 			sc.Archives = append(sc.Archives, ar)
 		}
+		if ar := simkit.NewRNG(seed, "uw/allow-recipe"); len(sc.Allow) == 1 && sc.Allow[0] != "." && ar.Chance(1, 2) {
+			// a link to the allow-listed place (legitimate), then entries that name things by way of it
+			tgt := strings.TrimRight(sc.Allow[0], "/")
+			l := simkit.Pick(ar, []string{"L", "a", "b/L"})
+			pre := []Entry{{Name: l, Type: "sym", Mode: 0o777, Sec: 1000000000, Link: tgt}}
+			for k := ar.Range(1, 2); k > 0; k-- {
+				e := Entry{Type: "reg", Mode: 0o644, Sec: 1000000001, Body: "PWN-allow;"}
+				switch ar.Intn(6) {
+				case 0:
+					e.Name = l + "/keep"
+				case 1:
+					e.Name = "x/../" + l + "/" + simkit.Pick(ar, []string{"keep", "new", "file"})
+				case 2:
+					e.Name = l
+				case 3:
+					e.Name, e.Type, e.Mode, e.Body = l+"/", "dir", simkit.Pick(ar, dirModes), ""
+				case 4:
+					e.Name, e.Type, e.Mode, e.Body, e.Link = l+"/up", "sym", 0o777, "", ".."
+				default:
+					e.Name = "./" + l + "//new"
+				}
+				pre = append(pre, e)
+			}
+			sc.Archives[0].Entries = append(pre, sc.Archives[0].Entries...)
+		}
 		// later calls of the same process: another destination, or the same one emptied by the caller
 		for i := 1; i < len(sc.Archives); i++ {
 			hr := simkit.NewRNG(seed, "uw/seq"+string(rune('0'+i)))
@@ -473,7 +498,16 @@ func genHostile(r *simkit.RNG) Archive {
 			default:
 				ar.Entries = append(ar.Entries, mk(y, "sym", x+"/..", ""), mk(x, "sym", ".", ""))
 			}
-			for k := r.Range(1, 3); k > 0; k-- {
+			quiet := false
+			if r.Chance(1, 3) {
+				// the path of the second link is first recorded as an (empty) directory, whose
+				// mode and times are restored after everything else - if the call gets that far
+				d := mk(y+"/", "dir", "", "")
+				d.Mode = simkit.Pick(r, dirModes)
+				ar.Entries = append([]Entry{d}, ar.Entries...)
+				quiet = r.Chance(1, 2)
+			}
+			for k := r.Range(1, 3); k > 0 && !quiet; k-- {
 				out := simkit.Pick(r, []string{"dst-evil/pwn", "dst-evil/keep", "victim", "shared/new", "shared/keep", "ext/file", "ext/dir/f", "dstx", "dst-evil/", "shared/"})
 				typ := "reg"
 				if strings.HasSuffix(out, "/") {
@@ -482,6 +516,9 @@ func genHostile(r *simkit.RNG) Archive {
 				ar.Entries = append(ar.Entries, mk(y+"/"+out, typ, "", "PWN-via;"))
 			}
 			n = r.Range(0, 3)
+			if quiet {
+				n = 0
+			}
 		}
 	}
 	for i := 0; i < n; i++ {
